@@ -52,6 +52,12 @@ type Sim struct {
 	released  int
 	simNanos  time.Duration
 	logHash   uint64
+	// hash and event count at the moment the gates were switched off
+	// selectGates: actors park before every select of package bluge/index
+	selectGates atomic.Bool
+	schedHash   uint64
+	schedEvents int
+	frozen      bool
 	nEvents   int
 	// quiet: under the race detector the harness must not create
 	// happens-before edges between actors that the code under test does not
@@ -253,6 +259,11 @@ func (s *Sim) Advance(d time.Duration) {
 // FreeRun switches all gates off and releases everybody (teardown).
 func (s *Sim) FreeRun() {
 	s.mu.Lock()
+	if !s.free {
+		// what follows is not scheduled: the determinism hash covers the
+		// scheduled part only
+		s.schedHash, s.schedEvents, s.frozen = s.logHash, s.nEvents, true
+	}
 	s.free = true
 	pl := s.parkedL
 	s.parkedL = nil
